@@ -41,6 +41,9 @@ func c17Exec(c *core.Ctx, cs c17Case) {
 	c.Count("substitutions", int(subs))
 	key := fmt.Sprintf("%s | %v", q(cs.Src), cs.Aliases)
 	switch {
+	case werr != nil && cs.Kind == "prefix-alias" && gerr == nil:
+		c.Violation("accepted", key, "rejected like "+q(cs.Plain)+" ("+werr.Error()+")", "accepted: "+skel.Cmds(got, skel.Normalised), "")
+		return
 	case werr != nil:
 		c.Skip("replaced text not accepted (not a C17 matter)")
 		return
@@ -164,6 +167,22 @@ func c17Gen(c *core.Ctx) {
 		{"foo $(foo)", map[string]string{"foo": "foo x"}, "foo x $(foo x)"},
 	} {
 		core.Do(c, c17Case{Src: d.src, Aliases: d.al, Plain: d.plain, Kind: "hand-written"}, c17Exec)
+	}
+	// an alias after an assignment or redirection prefix: its value is further words of the same
+	// simple command, so "!", "{" and reserved words at its start are ordinary words there
+	for _, pre := range []string{"FOO=1 ", ">f ", "2>f FOO=1 ", "x=1 y=2 <g ", "if >f ", "{ x=1 ", "( >f "} {
+		for _, val := range []string{"{", "! x", "in x", "done", "then y", "if", "}", "fi", "for", "case x", "esac", "do", "elif z", "else", "while", "until", "{ b; }", "b", "b ", "! ", "x=2", ">g"} {
+			for _, post := range []string{"", " y", " a", "; }", "; fi", " )"} {
+				src, plain := pre+"a"+post+"\n", pre+val+post+"\n"
+				al := map[string]string{"a": val}
+				if (strings.HasSuffix(val, " ") || val == "x=2" || val == ">g") && strings.HasPrefix(post, " a") {
+					continue // (the following word would be examined: it is the alias itself, still in command position)
+				}
+				core.Do(c, c17Case{Src: src, Aliases: al, Plain: plain, Kind: "prefix-alias"}, c17Exec)
+				// the value reached through a chain
+				core.Do(c, c17Case{Src: src, Aliases: map[string]string{"a": "c", "c": val}, Plain: plain, Kind: "prefix-alias"}, c17Exec)
+			}
+		}
 	}
 	// fixed scenarios: cycles over <=3 names x trailing blanks, the pinned repo scenarios re-derived
 	names := []string{"aa", "bb", "cc"}
